@@ -405,6 +405,15 @@ pub fn run_random(rng: &mut Rng, len: usize, rep: &mut Report) -> (Case, Option<
         let coins: Coins = DENOMS.iter().map(|d| (d.to_string(), rng.range_u128(0, 5000))).collect();
         ops.push(BOp::Mint { to: u.clone(), coins });
     }
+    // now and then a crowd of funded accounts (totals are computed over all accounts, however many there are)
+    if rng.chance(1, 5) {
+        let n = *rng.pick(&[29u64, 30, 31, 59, 60, 61, 95]);
+        for i in 0..n {
+            let coins: Coins = vec![(rng.pick(&DENOMS).to_string(), rng.range_u128(1, 50))];
+            ops.push(BOp::Mint { to: format!("crowd{}", i).into_addr().to_string(), coins });
+        }
+        rep.bump("c09/histories_with_a_crowd_of_accounts");
+    }
     for op in ops.clone() {
         if let Some(f) = apply(&mut w, &op, rep) {
             return (Case { ops }, Some(f));
